@@ -24,6 +24,7 @@ ASSUMPTIONS = [
     "sample, inside the interval, flags: at most bit 3, and only on an unmoved pixel)",
 ]
 GATES = {
+    "reversed_raster_compared": 20, "reversed_raster_with_non_sample_disparities": 5,
     "flat_triple_after_filter_in_pipeline": 1,
     "sample_at_per_pixel_interval_end": 1,
     "max_type": 1,
@@ -273,6 +274,19 @@ def run_case(case, ctx):
                            ds["validity_mask"].data, ds["interpolated_coeff"].data, desc, pl, ph)
         ctx.case([desc[k] for k in sorted(desc)], nontrivial=nm > 0 and ns > 0)
         ctx.gate("max_type", int(tm == "max"))
+        # the rule is per pixel: the same volume and map with rows and columns reversed must give the reversed outputs
+        # (a result that depends on the pixels processed before it does not)
+        cv2 = gen.make_cv(np.ascontiguousarray(costs[::-1, ::-1]), disps, tm, subpix=sp)
+        ds2 = _disp_ds(np.ascontiguousarray(d_b[::-1, ::-1]), np.ascontiguousarray(m_b[::-1, ::-1]), cv2)
+        refinement.AbstractRefinement(refinement_method=method).subpixel_refinement(cv2, ds2)
+        ctx.gate("reversed_raster_compared")
+        ctx.gate("reversed_raster_with_non_sample_disparities", int(map_kind in ("fractional", "half")))
+        for v in ("disparity_map", "validity_mask", "interpolated_coeff"):
+            if not gen.same(ds[v].data, ds2[v].data[::-1, ::-1]):
+                ctx.violation("refinement-of-a-pixel-depends-on-the-other-pixels",
+                              f"{v}: {gen.first_diffs(ds[v].data, ds2[v].data[::-1, ::-1], 3)} (a = as given, b = rows and columns reversed)",
+                              case, situation=v, desc=desc)
+                break
         return
     if work == "pipe":
         _pipe(case, ctx)
